@@ -5,7 +5,7 @@ CONSTANTS
   Ops = {o1, o2, o3}
   Kind <- KindSSS
   FdOf <- FdSame
-  Dir <- DirR
+  Dir <- DirRW
   Fds = {1, 2}
   Eager = FALSE
 SPECIFICATION Spec
